@@ -338,6 +338,9 @@ func (cmd commandEpsv) Execute(conn *Conn, param string) {
 
 	log.Debugf("EPSV: new socket on port: %d", socket.Port)
 
+	if conn.dataConn != nil {
+		conn.dataConn.Close()
+	}
 	conn.dataConn = socket
 	msg := fmt.Sprintf("Entering Extended Passive Mode (|||%d|)", socket.Port())
 	conn.writeMessage(229, msg)
@@ -558,6 +561,9 @@ func (cmd commandPasv) Execute(conn *Conn, param string) {
 
 	log.Debugf("PASV: new socket on port: %d", socket.Port)
 
+	if conn.dataConn != nil {
+		conn.dataConn.Close()
+	}
 	conn.dataConn = socket
 	p1 := socket.Port() / 256
 	p2 := socket.Port() - (p1 * 256)
